@@ -26,7 +26,7 @@ LEVEL_TEXT = (
 LEVEL_NOTE = "Scheduler owns the asyncio ready queue / external completions and the pool job order; callbacks are atomic at this level (thread interleavings inside callbacks are explored under C08)."
 DESIGN_REF = "DESIGN.md section 5 and section 6, C09"
 RULE = (
-    "case = (schema shape {full, single-field root types}, sequence of 1..n top-level mutation fields with sub-selections, written plainly or through "
+    "case = (schema shape {full, single-field root types, one type as both query and mutation root}, sequence of 1..n top-level mutation fields with sub-selections, written plainly or through "
     "fragment spreads / inline fragments, resolver style assignment, <=1 injected failure path); "
     "evaluation = one execution checked by the monitor and compared with the reference; non-trivial = distinct (case, config, schedule) "
     "with >= 2 top-level fields and at least one scheduling choice"
